@@ -89,7 +89,17 @@ fn scenario(k: u64, rng: &mut Rng, tier: Tier) -> Scenario {
     if k % 8 == 7 {
         // error classes
         let inf = f64::INFINITY;
-        let (class, kind, bound, ask): (&'static str, i32, Option<(f64, f64)>, u64) = match rng.below(9) {
+        let nan = f64::NAN;
+        if rng.chance(1, 12) {
+            // no variable is defined at all: every id is unknown
+            let mut inst = v1::Instance::default();
+            inst.objective = Some(f_const(0.0));
+            inst.sense = SENSE_MIN;
+            return Scenario { inst, target, error: Some("unknown-id-no-variables"), lower: nan, upper: nan };
+        }
+        let (class, kind, bound, ask): (&'static str, i32, Option<(f64, f64)>, u64) = match rng.below(11) {
+            9 => ("nan-bound", KIND_INTEGER, Some(*rng.pick(&[(nan, 5.0), (0.0, nan), (nan, nan), (-3.0, nan), (nan, -2.0)])), target),
+            10 => ("kind-semi-continuous", KIND_SEMI_CONTINUOUS, Some((0.0, 5.0)), target),
             0 => ("unknown-id", KIND_INTEGER, Some((0.0, 5.0)), target + 12345),
             1 => ("kind-binary", KIND_BINARY, Some((0.0, 1.0)), target),
             2 => ("kind-continuous", KIND_CONTINUOUS, Some((0.0, 5.0)), target),
@@ -183,7 +193,7 @@ impl Property for C12 {
         }
     }
     fn rule(&self) -> &'static str {
-        "cases 0..W*5 enumerate every width 0..W-1 (W=513 quick, 4097 thorough) at 5 offsets/shapes (0, -3, fractional ends around 1000.5, -2^20, fractional centred); the remaining cases draw random ranges with |l|,|u| <= 2^20 (integers, powers of two +-1, fractional ends, the corners [-2^20, 2^20] and widths 2^k+d anchored at them, bounds within 1e-12..1e-6 of an integer on either side) and, every 8th case, one error class (unknown id, binary / continuous / semi-integer kind, no bound, upper / lower / both bounds infinite, no integer inside). For each success the set of values of the returned Linear over all bit patterns is computed exactly by subset-sum reachability (width <= 2^16) or the complete-sequence criterion and must equal {ceil(l)..floor(u)}; the appended variables are checked; failures must leave the instance equal. The bit loop is observed through hook log_encode.bit with a budget of 1100 steps. Non-trivial = every case with width >= 1; distinct = fingerprint of (lower, upper, variable layout)."
+        "cases 0..W*5 enumerate every width 0..W-1 (W=513 quick, 4097 thorough) at 5 offsets/shapes (0, -3, fractional ends around 1000.5, -2^20, fractional centred); the remaining cases draw random ranges with |l|,|u| <= 2^20 (integers, powers of two +-1, fractional ends, the corners [-2^20, 2^20] and widths 2^k+d anchored at them, bounds within 1e-12..1e-6 of an integer on either side) and, every 8th case, one error class (unknown id, also in an instance without any variable, binary / continuous / semi-integer / semi-continuous kind, no bound, upper / lower / both bounds infinite, a NaN bound end, no integer inside). For each success the set of values of the returned Linear over all bit patterns is computed exactly by subset-sum reachability (width <= 2^16) or the complete-sequence criterion and must equal {ceil(l)..floor(u)}; the appended variables are checked; failures must leave the instance equal. The bit loop is observed through hook log_encode.bit with a budget of 1100 steps. Non-trivial = every case with width >= 1; distinct = fingerprint of (lower, upper, variable layout)."
     }
     fn assumptions(&self) -> Vec<&'static str> {
         vec!["variable ids < 2^62 (fresh ids are max+1); bounds are finite f64 with |.| <= 2^20 except in the error classes"]
@@ -225,7 +235,8 @@ impl Property for C12 {
             match res {
                 Ok(l) => mon.violation(format!("C12.error-accepted:{class}"), ctx(&after, &l)),
                 Err(_) => {
-                    if after != before {
+                    // compared as encoded bytes: a NaN bound end is not equal to itself under PartialEq
+                    if prost::Message::encode_to_vec(&after) != prost::Message::encode_to_vec(&before) {
                         mon.violation(format!("C12.error-modified-instance:{class}"), ctx(&after, &"Err"));
                     }
                 }
@@ -252,7 +263,8 @@ impl Property for C12 {
         let lin = match res {
             Err(e) => {
                 if width < 0.0 {
-                    if after != before {
+                    // compared as encoded bytes: a NaN bound end is not equal to itself under PartialEq
+                    if prost::Message::encode_to_vec(&after) != prost::Message::encode_to_vec(&before) {
                         mon.violation("C12.error-modified-instance:no-integer-inside", ctx(&after, &e));
                     }
                 } else {
